@@ -232,10 +232,14 @@ def runCItem (eid : Nat) (it : CItem) : M Unit := do
   | .httpAccessDone sub h a ms =>
     let _ ← connEnqueue sub.cid (.httpAccess h sub.uid a ms)
     removeCount eid 1
+  | .httpCallAccessDone sub h action params a ms =>
+    let _ ← connEnqueue sub.cid (.httpCallAccess h sub.uid action params a ms)
+    removeCount eid 1
   | .callDone k a =>
     let cid := match k with
       | .call cid _ _ => cid
       | .auth cid _ => cid
+      | .httpCall cid _ _ _ => cid
       | .access s => s.cid
     let _ ← connEnqueue cid (.callAnswer k a)
     removeCount eid 1
